@@ -1,5 +1,5 @@
 """C02 — Pr*A*Pc = L*U within gamma(n)|L||U|, multipliers bounded by 1/u, diagonal preferred."""
-from vlib import sweep as S, common as C, pivot as PV
+from vlib import sweep as S, common as C, pivot as PV, factor_corr as FC
 LEVEL = "proof"
 EXPLANATION = ("Pivot policy / threshold / exact LU identity are theorems about Model/Pivot.lean and Model/LU.lean; the "
                "floating-point clause |PrAPc-LU| <= gamma(n)|L||U| is decided per run by the Lean-verified exact checker "
@@ -23,5 +23,11 @@ def run(ctx):
     n_cases, nmax = (700, 48) if ctx.quick() else (15000, 160)
     recs = S.sweep(ctx, n_cases, nmax, precs="ds", drivers=("gssv", "gssvx", "gssvx"))
     bad = S.judge(ctx, recs, ["wfL", "wfU", "permr", "permc", "lower", "upper", "lu", "mult", "diag"], "LU-identity")
+    # (c) whole-factorization correspondence with the exact rational model (discrete outputs, margin rule)
+    st2, dis2 = FC.compare(ctx, recs, nmax=24 if ctx.quick() else 40)
+    ctx.coverage["factor_correspondence"] = st2
+    for d in dis2[:10]:
+        ctx.violation("factor-correspondence:" + ",".join(d.get("fields", [d["kind"]])),
+                      "correspondence p?gstrf <-> Model/LU.lean (theorems Slu.factor_*) no longer checks: %s" % (d.get("fields") or d["kind"]), d, no_input=True)
     S.coverage(ctx, recs, "Thresholds u in {1, 1/2, 1/8, 0, random}.")
     ctx.coverage["lu_failures"] = bad
